@@ -146,8 +146,14 @@ def rand_ident(rng, used):
 
 def rand_display(rng, used, wide=True):
     for _ in range(100):
-        k = rng.randrange(8)
-        if k == 0:
+        k = rng.randrange(9)
+        if k == 8:
+            # digit runs on both sides of what 64 (and 128) bits hold, behind a common prefix, so that siblings differ inside the run only
+            s = rng.choice(["n", "n", "w"]) + rng.choice(["", "0", "00"]) + rng.choice([
+                "18446744073709551614", "18446744073709551615", "18446744073709551616", "18446744073709551617", "36893488147419103232",
+                "99999999999999999999", "100000000000000000000", "340282366920938463463374607431768211455", "340282366920938463463374607431768211456",
+                "4294967296", "9223372036854775808"]) + rng.choice(["", "", "x"])
+        elif k == 0:
             s = rng.choice(LETTERS) + rng.choice(["1", "01", "001", "10", "9", "100", "2", "02"]) + rng.choice(["", "x", ".5"])
         elif k == 1:
             s = "".join(rng.choice(LETTERS + "0123456789") for _ in range(rng.randrange(1, 10)))
@@ -388,6 +394,26 @@ def gen_spec(rng, profile=None):
         b.order = len(items)
         items.append(b)
         bid += 1
+    if rng.random() < profile.get("p_bigruns", 0.15):
+        # siblings whose names differ only inside a digit run that no 64-bit (or 128-bit) integer holds
+        bym = {}
+        for it in items:
+            if isinstance(it, Bench):
+                bym.setdefault(tuple(it.modpath), []).append(it)
+        cands = [v for v in bym.values() if len(v) >= 2]
+        if cands:
+            v = rng.choice(cands)
+            chosen = rng.sample(v, min(len(v), rng.choice([2, 3])))
+            nums = rng.sample(["18446744073709551615", "18446744073709551616", "18446744073709551617", "36893488147419103232", "99999999999999999999",
+                               "100000000000000000000", "340282366920938463463374607431768211455", "340282366920938463463374607431768211456"], len(chosen))
+            pre = rng.choice(["n", "w", "len="])
+            du = disp_used.setdefault(tuple(chosen[0].modpath), set())
+            for b, num in zip(chosen, nums):
+                name = pre + rng.choice(["", "", "0"]) + num
+                if name not in du:
+                    du.discard(b.display)
+                    b.display = name
+                    du.add(name)
     # two benchmarks of one process whose integer arguments share bit patterns across signedness
     argb = [b for b in items if isinstance(b, Bench) and b.kind == "args" and b.args]
     if len(argb) >= 2 and rng.random() < 0.3:
